@@ -37,7 +37,7 @@ def obligations(tier):
                                 '(a rejected first command leaves everything untouched: covered by k1)'))
     if not quick:
         for r in (7,):
-            for i0 in range(min(nacc[r], 24)):      # the first 24 accepted commands: the full set does not fit the tier
+            for i0 in range(nacc[r]):
                 obs.append(Ob(id=f'history.recipe{r}.k3.first{i0}', module=M, func='history_after_accepted', params='c1: int, c2: int',
                               args=f'{r}, 3, {i0}, c1, c2', pre=[f'0 <= c1 < {nmenu} and 0 <= c2 < {nmenu}'], timeout=T,
                               group='histories', bound=f'recipe {r} + its accepted command #{i0} + any 2 of the {nmenu} menu commands'))
@@ -66,7 +66,7 @@ def run(tier, only=''):
                      'catalog is exactly the layout the query compiler addresses for the new schema - a table for every object '
                      'type and pointer with types.has_table, a column (name and type) for every stored pointer according to '
                      'types.get_pointer_storage_info / common.get_backend_name - no missing and no orphan table or column.' % nmenu),
-        bounds={'pre-states': f'{nrec} recipes built by DDL through the same route', 'commands per history': 2 if tier == 'quick' else '3 (recipe 7, first command among the first 24 it accepts), 2 (others)',
+        bounds={'pre-states': f'{nrec} recipes built by DDL through the same route', 'commands per history': 2 if tier == 'quick' else '3 (recipe 7), 2 (others)',
                 'menu': nmenu},
         stubs=C04.STUBS + ['edb._buildmeta.VERSION supplied by the harness (versioned backend schema names)',
                            'std::sequence added to the std stand-in (looked up by the backend for every new property)',
